@@ -1474,7 +1474,11 @@ class sym_int(metaclass=_IntMeta):
             return SymInt(z3.If(x.e, 1, 0))
         if _isinstance(x, SymReal):
             return x.trunc()
-        return _int(x, *a)
+        try:
+            return _int(x, *a)
+        except (ValueError, TypeError, OverflowError) as exc:
+            exc._from_builtin = True  # int() itself refused the concrete argument: behaviour of the code under test
+            raise
 
     @staticmethod
     def from_bytes(b, byteorder="big", signed=False):
@@ -1851,7 +1855,7 @@ def explore(fn, max_paths=200000, max_seconds=600.0, stop_on_violation=True, see
             tb = exc.__traceback__
             where = traceback.extract_tb(tb)[-1]
             site = "%s:%s" % (where.filename.rsplit("/", 1)[-1], where.name)
-            if _innermost_in_vf(tb) and not _isinstance(exc, AssertionError):
+            if _innermost_in_vf(tb) and not _isinstance(exc, AssertionError) and not getattr(exc, "_from_builtin", False):
                 res.inconclusive.append("engine error %s: %s at %s:%d" % (type(exc).__name__, exc, where.filename.rsplit("/", 1)[-1], where.lineno))
             else:
                 msg = "unexpected %s escaped at %s" % (type(exc).__name__, site)
